@@ -15,3 +15,68 @@ Definition p_step (s : step) : string :=
 
 Definition trace_ok (tr : list step) : bool :=
   forallb (fun s => String.eqb (p_step s) "") tr.
+
+(* ---- LockPile, seen from outside ------------------------------------------ *)
+(* The harness drives the real LockPile of one thread with scripted
+   TryLockers and records every mutex call.  From those calls alone:
+   - a blocking Lock() is only issued while nothing is held
+     (pile_blocks_bare), TryLock is never issued on a mutex already held,
+     Unlock only on a held mutex;
+   - after every call that returns, the set of held mutexes is the set of
+     locks the caller has requested and not yet unlocked
+     (pile_holds_exactly; recursion counts make it a multiset on the
+     caller's side). *)
+From VF Require Import Locks.Pile.
+From Coq Require Import Arith.
+
+Fixpoint remove_one (m : mutex) (l : list mutex) : list mutex :=
+  match l with
+  | [] => []
+  | x :: t => if Nat.eqb x m then t else x :: remove_one m t
+  end.
+
+Definition mem (m : mutex) (l : list mutex) : bool := existsb (Nat.eqb m) l.
+
+Definition set_eqb (a b : list mutex) : bool :=
+  forallb (fun x => mem x b) a && forallb (fun x => mem x a) b.
+
+(* held mutexes after a sequence of calls, or the kind of the first bad call *)
+Fixpoint calls_ok (held : list mutex) (calls : list action) : string + list mutex :=
+  match calls with
+  | [] => inr held
+  | ATryLock m true :: t => if mem m held then inl "pile-trylock-of-held-mutex" else calls_ok (m :: held) t
+  | ATryLock m false :: t => calls_ok held t
+  | ALock m :: t =>
+    match held with
+    | [] => calls_ok [m] t
+    | _ => inl "pile-blocks-while-holding"
+    end
+  | AUnlock m :: t => if mem m held then calls_ok (remove_one m held) t else inl "pile-unlock-of-free-mutex"
+  | ATau :: t => calls_ok held t
+  end.
+
+Record pile_obs := mkPO {
+  po_cmd : cmd;
+  po_oracle : list bool;     (* answers the scripted TryLocks gave, in order *)
+  po_panicked : bool;
+  po_calls : list action }.
+
+(* caller's view: locks requested and not yet unlocked (with multiplicity) *)
+Definition want_after (want : list mutex) (c : cmd) : list mutex :=
+  match c with
+  | CLock news => want ++ news
+  | CUnlock m => remove_one m want
+  | CUnlockAll => []
+  end.
+
+(* state of the monitor: (want, held) *)
+Definition pile_p (st : list mutex * list mutex) (o : pile_obs) : string * (list mutex * list mutex) :=
+  let (want, held) := st in
+  if po_panicked o then ("", st)      (* Go panics: Lock() of nothing on an empty pile, Unlock of a lock not in the pile *)
+  else
+    match calls_ok held (po_calls o) with
+    | inl k => (k, st)
+    | inr held' =>
+      let want' := want_after want (po_cmd o) in
+      if set_eqb held' want' then ("", (want', held')) else ("pile-holds-wrong-set", (want', held'))
+    end.
